@@ -183,6 +183,13 @@ CATALOGUE: dict[str, tuple[type, list]] = {
     "AnyS": (AnyS, [lambda: {"v": [1, 2, 3]}, lambda: {"v": {"k": [1]}, "w": [4]}, lambda: {"v": range(3)}]),
 }
 
+class Grid[T](State):
+    """the type variable sits two container levels deep"""
+
+    cells: Sequence[Sequence[T]]
+    index: Mapping[str, Sequence[T]] | None = None
+
+
 def hook_one(x):
     raise AssertionError("a stored callable must never be called by the library")
 
@@ -226,6 +233,8 @@ class Hooks(State):
 CATALOGUE.update(
     {
         "MapS/kinds": (MapS, [lambda: {"m": collections.OrderedDict(ab=1, k=2)}, lambda: {"m": collections.defaultdict(int, ab=1)}, lambda: {"m": collections.Counter(ab=1, k=2)}, lambda: {"m": type("MyDict", (dict,), {})(ab=1)}]),
+        "GridMap": (Grid[Mapping[str, int]], [lambda: {"cells": [[{"ab": 1}], [{"k": 2}, {}]]}, lambda: {"cells": [], "index": {"i": [{"ab": 1}]}}]),
+        "GridInt": (Grid[int], [lambda: {"cells": [[1, 2], [3]]}]),
         "Scalars/neg": (Scalars, [lambda: {"a": -1}, lambda: {"a": -2, "b": "", "c": -0.0}]),
         "Hooks": (Hooks, [lambda: {}, lambda: {"cb": hook_one, "anyv": hook_one, "runner": RUNNER_A, "n": 1}]),
         "SeqS/long": (SeqS, [lambda: {"items": list(range(16))}, lambda: {"items": list(range(17))}, lambda: {"items": list(range(40))}, lambda: {"items": list(range(300))}]),
@@ -275,6 +284,8 @@ REPLACE: dict[str, dict[str, tuple]] = {
 REPLACE.update(
     {
         "MapS/kinds": {"m": (lambda: collections.OrderedDict(zz=9), {"k": "bad"}, 0)},
+        "GridMap": {"cells": (lambda: [[{"q": 9}]], [[{"q": "bad"}]], 0), "index": (lambda: {"z": [{"q": 9}]}, {"z": [{"q": "bad"}]}, 0)},
+        "GridInt": {"cells": (lambda: [[9]], [["bad"]], 0)},
         "Scalars/neg": {"a": (lambda: -2, "bad", ""), "b": (lambda: "z", 7, 0), "c": (lambda: 0.0, "bad", "")},
         "Hooks": {"cb": (lambda: hook_two, 7, 0), "anyv": (lambda: hook_two, None, None), "runner": (lambda: RUNNER_B, 7, 0)},
         "SeqS/long": {"items": (lambda: list(range(100, 120)), list(range(19)) + ["bad"], 0)},
